@@ -774,6 +774,14 @@ func c02HandlerErrOnWire(c *core.Ctx) {
 		if stUse == nil {
 			c.Fail(key+":ok-rewrite", fromErr.Pos(), "cannot find where the converted status is used")
 		} else {
+			// what goes on the wire is status.FromError's reading of the handler's error (which, for an error that
+			// wraps a status error, keeps the wrapper's text in the message) — not a status dug out of the error by
+			// other means
+			if bad := foreignStatusSource(stUse, 0); bad != "" {
+				c.Fail(key+":status-is-FromErrors", fromErr.Pos(), "the status sent for the handler's error can come from %s instead of status.FromError / status.Convert: what callers of a real gRPC server get for the same error (code and message as FromError reads them) and what this server sends differ", bad)
+			} else {
+				c.Ok(key+":status-is-FromErrors", fromErr.Pos(), "every source of the status sent is status.FromError / Convert (or the OK→Internal rewrite of it)")
+			}
 			c.Check(okRewritten(stUse), key+":ok-rewrite", fromErr.Pos(), "code OK is rewritten to a non-OK constant before the status goes on the wire", "an error whose status code is OK would be sent as success (no OK→Internal rewrite on this path; its sibling has one)")
 		}
 		if hc.Stream {
@@ -1816,4 +1824,41 @@ func throughSanitiser(v ssa.Value) ssa.Value {
 		}
 	}
 	return v
+}
+
+// foreignStatusSource: a source of the *status.Status v that is not
+// status.FromError / Convert / FromProto / a status constructor (followed
+// through module functions' returns); "" if there is none.
+func foreignStatusSource(v ssa.Value, depth int) string {
+	if depth > 3 {
+		return ""
+	}
+	for _, o := range core.Origins(v) {
+		if core.IsNilConst(o) {
+			continue
+		}
+		if _, isPar := o.(*ssa.Parameter); isPar {
+			continue
+		}
+		call, idx, ok := core.CallResult(o)
+		if !ok {
+			continue
+		}
+		ci := core.InfoOf(&call.Call)
+		switch {
+		case ci.Is(statusPkg+".FromError"), ci.Is(statusPkg+".Convert"), ci.Is(statusPkg+".FromProto"), ci.Is(statusPkg+".New"), ci.Is(statusPkg+".Newf"), ci.Is(statusPkg+".FromContextError"):
+		case ci.Static != nil && ci.Static.Blocks != nil && strings.HasPrefix(ci.Pkg, core.ModulePath):
+			for _, r := range core.Returns(ci.Static) {
+				if idx < len(r.Results) {
+					if b := foreignStatusSource(r.Results[idx], depth+1); b != "" {
+						return b
+					}
+				}
+			}
+		case ci.Recv == "Status" && (ci.Name == "WithDetails"):
+		default:
+			return ci.Full()
+		}
+	}
+	return ""
 }
